@@ -24,6 +24,10 @@ func oracleC11(c *props.Case) props.Verdict {
 		return props.FailV(sc.Family+":compare-changed-device", "device state differs before and after a compare run\n%s", o.Summary())
 	}
 	for _, l := range o.Lines {
+		if l.Text == "exit" {
+			// Leaves a mode (or the session); not a configuration command.
+			continue
+		}
 		switch l.Class {
 		case "change", "save", "reload-arm", "reload-cancel", "prepare":
 			return props.FailV(sc.Family+":compare-sent-"+l.Class, "compare run sent %q (%s)\n%s", l.Text, l.Class, o.Summary())
@@ -51,7 +55,7 @@ func oracleC11(c *props.Case) props.Verdict {
 				unchanged = true
 			}
 		}
-		if changed && cmpFile == "" {
+		if changed && cmpFile == "" && !(sc.Front == "drc" && sc.NoLogDir) {
 			return props.FailV(sc.Family+":cmp-file-missing", "differences found but no .cmp file written\nfiles: %v\n%s", o.FileNames(), o.Summary())
 		}
 		if unchanged && !changed && cmpFile != "" {
